@@ -7,12 +7,12 @@ PROPERTIES_FILE = "Properties/C11.v"
 COQ_TARGETS = ["Properties/C11.vo", "Client/ChunkCases.vo"]
 LEVEL = "proof"
 TECHNIQUE = ("Coq theorems (induction on the chunk loop with an invariant, for every buffer/offset/chunk size/file/backend tape) over a "
-             "hand-written Gallina model of chunk/readAt/writeAt; model tied to the code by differential cases evaluated with vm_compute")
+             "hand-written Gallina model of chunk/readAt/writeAt; the loop of chunk is TRANSLATED from client_file.go by go2coq ArithGen on every run and proved equal to the model for all inputs (C11_source_loop_is_model); differential cases evaluated with vm_compute")
 LEVEL_TEXT = ("Theorems for all buffer lengths, chunk sizes >= 1, offsets 0 <= off, off+len < 2^63, remote files and tapes of backend answers "
               "(short counts and errors on any chunk) about an executable model of chunk(), readAt and writeAt; every run re-checks the proofs "
               "and compares the model with the real chunk() (scripted fn, including over-reporting and the panic) and with Client.ReadAt/WriteAt "
               "through the real client, the real server and a sparse in-memory backend (msize 154 .. 1 MiB, offsets at/after EOF and above 2^32).")
-LEVEL_NOTE = ("Trusted: Coq kernel + vm_compute; the hand model Client/Chunk.v is tied to the Go code only by the differential cases; for msize >= 2201 "
+LEVEL_NOTE = ("Trusted: Coq kernel + vm_compute; go2coq ArithGen (translates the pieces of chunk -- empty-buffer test, statements before the call of fn, slice and offset handed to fn, statements after -- into Gallina over Z with int/int64 wrap-around; checks the loop skeleton `for { ... }` around ONE call of fn syntactically and refuses anything else); Client/ChunkTie.v proves gen_chunk = Chunk.chunk for every chunk size 1..2^32-1, length < 2^62, offset, fn (reporting < 2^62) and state, so the theorems are about the loop in the source; readAt/writeAt (the per-chunk functions) remain a hand model tied by the differential cases; concurrent reads on one connection after a zero-byte EOF read are judged by the harness itself (CFilled); for msize >= 2201 "
               "the end-to-end comparison is at length level (requests, counts, result) and the content check is done by the harness in Go (for runs longer than 30000 bytes also the 'fills p up to end of file / n = len p' "
               "check; for all other runs it is ChunkCases.fills_to_eof, judged on the backend's log against the file); "
               "one Twrite/Tread is modelled as seen by the client (count or error): an Rlerror carries no count, so a backend that stores bytes "
@@ -27,7 +27,8 @@ ASSUMPTIONS = [
 TRUSTED_BASE = [
     "Coq 8.16.1 kernel, vm_compute (cases evaluation); no native_compute",
     "axioms: none (Print Assumptions: closed under the global context for every property theorem)",
-    "hand-written model Client/Chunk.v, tied by harness/p9/c11_test.go + Client/ChunkCases.v",
+    "hand-written model Client/Chunk.v, tied by go2coq ArithGen + Client/ChunkTie.v (chunk) and by harness/p9/c11_test.go + Client/ChunkCases.v (readAt/writeAt, end to end)",
+    "go2coq ArithGen (tools/go2coq/arithgen.go): its translation of Go statements/expressions to Gallina is trusted; cross-checked by the differential on the real chunk()",
     "Fs/Version.v payload_of (C12) for the payload size of a negotiated msize",
     "props/C11.py to_case (tape encoding: WErrStored from the 'stored' flag, 'big' = len p + cs + 1 standing for 'all'), harness twins: vh11File (sparse backend), "
     "vh11PatternAC + ChunkCases.pattern (the same byte pattern generated twice), vhclVerConn/vhclPairGrant (granted msize forced by rewriting the Rversion frame), Go-side content check of runs > 30000 bytes",
